@@ -91,6 +91,9 @@ func (r *Result) Write(path string) error {
 	r.Distinct = len(r.distinct)
 	r.WallS = time.Since(r.start).Seconds()
 	sort.Strings(r.Samples)
+	if r.Samples == nil {
+		r.Samples = []string{} // a replay may leave an engine without cases; bin/check.py slices this field
+	}
 	if r.Disagreements == nil {
 		r.Disagreements = []Disagreement{}
 	}
